@@ -971,6 +971,13 @@ class API:
 
         all_errors: dict = {}
         versions_seen: set = set()
+        # The settings name methods of the whole API; a sub-package view
+        # (see `subpackages`) only sees the services of its sub-package.
+        all_methods = (
+            dataclasses.replace(self, subpackage_view=()).all_methods
+            if self.subpackage_view
+            else self.all_methods
+        )
         for library_settings in client_library_settings:
             # Check if this version is defind more than once
             if library_settings.version in versions_seen:
@@ -985,7 +992,7 @@ class API:
             ) in (
                 library_settings.python_settings.common.selective_gapic_generation.methods
             ):
-                if method_name not in self.all_methods:
+                if method_name not in all_methods:
                     selective_gapic_errors[method_name] = "Method does not exist."
                 elif not method_name.startswith(library_settings.version):
                     selective_gapic_errors[method_name] = (
